@@ -1,0 +1,11 @@
+//go:build verif
+
+package cli
+
+import "github.com/Vedant9500/WTF/internal/database"
+
+// VerifSaveToPersonalDatabase exposes the notebook's read-modify-write to the bounded
+// round-trip suite of /verif (compiled only with the build tag verif).
+func VerifSaveToPersonalDatabase(dbPath string, entry database.Command) error {
+	return saveToPersonalDatabase(dbPath, entry)
+}
